@@ -290,7 +290,8 @@ class Array:
         if len(self.data) % self._dtype.bitlength != 0:
             raise ValueError(f"Cannot extend Array as its data length ({len(self.data)} bits) is not a multiple of the format length ({self._dtype.bitlength} bits).")
         if isinstance(iterable, Array):
-            if self._dtype.name != iterable._dtype.name or self._dtype.bitlength != iterable._dtype.bitlength:
+            if self._dtype.name != iterable._dtype.name or self._dtype.bitlength != iterable._dtype.bitlength \
+                    or self._dtype.scale != iterable._dtype.scale:
                 raise TypeError(
                     f"Cannot extend an Array with format '{self._dtype}' from an Array of format '{iterable._dtype}'.")
             # No need to iterate over the elements, we can just append the data
@@ -305,7 +306,11 @@ class Array:
             if self._dtype.name != other_dtype.name or self._dtype.bitlength != other_dtype.bitlength:
                 raise ValueError(
                     f"Cannot extend an Array with format '{self._dtype}' from an array with typecode '{iterable.typecode}'.")
-            self.data += iterable.tobytes()
+            if self._dtype.scale is None:
+                self.data += iterable.tobytes()
+            else:
+                # With a scale the stored items are not the raw values, so each one has to be encoded.
+                self.extend(iterable.tolist())
         else:
             if isinstance(iterable, str):
                 raise TypeError("Can't extend an Array with a str.")
@@ -462,6 +467,8 @@ class Array:
             if self._dtype.bitlength != other._dtype.bitlength:
                 return False
             if self._dtype.name != other._dtype.name:
+                return False
+            if self._dtype.scale != other._dtype.scale:
                 return False
             if self.data != other.data:
                 return False
